@@ -22,4 +22,20 @@ PROPS = {
         "lean_modules": ["JrpcProofs.Props.C19"],
         "assumptions": ["net/http delivers header and form values as documented; permissions are compared for equality only"],
     },
+    "C10": {
+        "lean_modules": ["JrpcProofs.Props.C10", "JrpcProofs.Facts.Frames", "JrpcProofs.Facts.Codes"],
+        "assumptions": [
+            "gorilla/websocket delivers whole messages and closes the connection itself on WebSocket-level protocol violations",
+            "encoding/json classifies each params element (shape, uint64-decodability) — computed by the harness with the real decoder",
+            "the endpoint under attack runs in a child process; crash = the child exits with a Go panic",
+        ],
+        "timeout": 1500,
+    },
+    "C05": {
+        "lean_modules": ["JrpcProofs.Props.C05", "JrpcProofs.Facts.Backoff"],
+        "assumptions": [
+            "float64 arithmetic of backoff.next is modelled exactly over the rationals; the differential check allows a relative slack of 2^-40 + 1 ns",
+            "rand.Float64() lies in [0,1)",
+        ],
+    },
 }
